@@ -59,7 +59,7 @@ class ChunkResult:
         self.wall = 0.0
 
 
-def run_chunk(vh, driver, seed, tier, lo, hi, wdir, tag, env, per_case_timeout, flavour, extra_args=None):
+def run_chunk(vh, driver, seed, tier, lo, hi, wdir, tag, env, per_case_timeout, flavour, extra_args=None, stride=1):
     """Run cases [lo,hi) in one process; on crash resume after the crashing case; on watchdog expiry re-run once."""
     res = ChunkResult()
     t0 = time.time()
@@ -69,8 +69,8 @@ def run_chunk(vh, driver, seed, tier, lo, hi, wdir, tag, env, per_case_timeout, 
         out = os.path.join(wdir, "%s.%d.%d.out" % (tag, cur, attempt))
         err = os.path.join(wdir, "%s.%d.%d.err" % (tag, cur, attempt))
         attempt += 1
-        cmd = [vh, driver, "--seed", str(seed), "--tier", tier, "--from", str(cur), "--to", str(hi), "--out", out] + (extra_args or [])
-        timeout = max(120.0, per_case_timeout * (hi - cur))
+        cmd = [vh, driver, "--seed", str(seed), "--tier", tier, "--from", str(cur), "--to", str(hi), "--stride", str(stride), "--out", out] + (extra_args or [])
+        timeout = max(120.0, per_case_timeout * ((hi - cur) // stride + 1))
         with open(err, "wb") as ef:
             p = subprocess.Popen(cmd, stdout=subprocess.DEVNULL, stderr=ef, env=env, cwd=wdir, start_new_session=True)
             try:
@@ -95,7 +95,7 @@ def run_chunk(vh, driver, seed, tier, lo, hi, wdir, tag, env, per_case_timeout, 
             break
         if open_case is None:
             # died outside a case (start-up / shutdown): harness failure, do not loop forever
-            if cases and cases[-1]["case"] + 1 >= hi and not timed_out:
+            if cases and cases[-1]["case"] + stride >= hi and not timed_out:
                 res.incidents.append(dict(kind="exit", case=None, rc=rc, stderr=tail, flavour=flavour))
                 break
             res.incidents.append(dict(kind="infra", case=None, rc=rc, stderr=tail, flavour=flavour))
@@ -116,7 +116,7 @@ def run_chunk(vh, driver, seed, tier, lo, hi, wdir, tag, env, per_case_timeout, 
                 res.incidents.append(dict(kind="hang", case=open_case, rc=None, stderr=tail, flavour=flavour))
         else:
             res.incidents.append(dict(kind="crash", case=open_case, rc=rc, stderr=tail, flavour=flavour))
-        cur = open_case + 1
+        cur = open_case + stride
     res.wall = time.time() - t0
     return res
 
@@ -129,7 +129,8 @@ def ncases(vh, driver, tier, env):
 
 
 def run_driver(vh_by_flavour, driver, seed, tier, wdir, per_case_timeout=30.0, env_extra=None, workers=NCPU,
-               limit=None, extra_args=None, env_by_flavour=None):
+               limit=None, extra_args=None, env_by_flavour=None, sample=None, keep_stderr=False):
+    """sample=N: run about N cases spread evenly over the driver's case range (stride), instead of all of them."""
     """Run `driver` for every flavour in vh_by_flavour; returns {flavour: ChunkResult-like merged}."""
     tasks = []
     for fl, vh in vh_by_flavour.items():
@@ -139,17 +140,21 @@ def run_driver(vh_by_flavour, driver, seed, tier, wdir, per_case_timeout=30.0, e
         n = ncases(vh, driver, tier, env)
         if limit is not None:
             n = min(n, limit)
+        stride = 1
+        if sample is not None and n > sample:
+            stride = max(1, n // sample)
         w = max(1, workers // max(1, len(vh_by_flavour)))
-        nchunks = min(n, w * 3) if n > 0 else 0
-        bounds = [(i * n) // nchunks for i in range(nchunks + 1)] if nchunks else []
+        nsel = (n + stride - 1) // stride
+        nchunks = min(nsel, w * 3) if nsel > 0 else 0
+        bounds = [((i * nsel) // nchunks) * stride for i in range(nchunks)] + [n] if nchunks else []
         for i in range(nchunks):
             if bounds[i] < bounds[i + 1]:
-                tasks.append((fl, vh, bounds[i], bounds[i + 1], env))
+                tasks.append((fl, vh, bounds[i], bounds[i + 1], env, stride))
     merged = {fl: ChunkResult() for fl in vh_by_flavour}
 
     def go(t):
-        fl, vh, lo, hi, env = t
-        return fl, run_chunk(vh, driver, seed, tier, lo, hi, wdir, "%s.%s" % (driver, fl), env, per_case_timeout, fl, extra_args)
+        fl, vh, lo, hi, env, stride = t
+        return fl, run_chunk(vh, driver, seed, tier, lo, hi, wdir, "%s.%s" % (driver, fl), env, per_case_timeout, fl, extra_args, stride)
 
     with ThreadPoolExecutor(max_workers=workers) as ex:
         for fl, r in ex.map(go, tasks):
